@@ -5,7 +5,6 @@ import (
 	"sort"
 	"strings"
 
-	"golang.org/x/tools/go/callgraph"
 	"golang.org/x/tools/go/ssa"
 
 	"iocvet/internal/core"
@@ -13,28 +12,97 @@ import (
 
 func init() { register("C09", c09) }
 
-// reachableInScope: in-scope functions reachable from root on the CHA call graph (literals included).
+// reachableInScope: in-scope functions reachable from the roots.  Static calls are followed directly, interface
+// invokes through the CHA graph; calls of plain function values are resolved by provenance instead of CHA's
+// signature matching (which drags in unrelated functions): every literal is reachable where it is created, every
+// named function where it is used as a value, and functions stored into a package-level variable become reachable
+// when reachable code refers to that variable.
 func reachableInScope(c *core.Ctx, roots ...*ssa.Function) []*ssa.Function {
 	cg := c.CG()
 	seen := map[*ssa.Function]bool{}
-	var visit func(n *callgraph.Node)
-	visit = func(n *callgraph.Node) {
-		if n == nil || seen[n.Func] || !c.InScope(n.Func) {
+	// functions stored into globals (by init functions etc.)
+	globalFns := map[*ssa.Global][]*ssa.Function{}
+	for _, fn := range c.Scope {
+		stores := map[*ssa.Global]bool{}
+		for _, b := range fn.Blocks {
+			for _, in := range b.Instrs {
+				if st, ok := in.(*ssa.Store); ok {
+					if g, isG := st.Addr.(*ssa.Global); isG {
+						stores[g] = true
+					}
+				}
+			}
+		}
+		if len(stores) == 0 {
+			continue
+		}
+		var fvals []*ssa.Function
+		for _, b := range fn.Blocks {
+			for _, in := range b.Instrs {
+				var ops []*ssa.Value
+				for _, op := range in.Operands(ops) {
+					if *op == nil {
+						continue
+					}
+					switch x := (*op).(type) {
+					case *ssa.MakeClosure:
+						fvals = append(fvals, x.Fn.(*ssa.Function))
+					case *ssa.Function:
+						if ci, isCall := in.(ssa.CallInstruction); isCall && ci.Common().Value == *op {
+							continue
+						}
+						fvals = append(fvals, x)
+					}
+				}
+				if mc, isMC := in.(*ssa.MakeClosure); isMC {
+					fvals = append(fvals, mc.Fn.(*ssa.Function))
+				}
+			}
+		}
+		for g := range stores {
+			globalFns[g] = append(globalFns[g], fvals...)
+		}
+	}
+	var visit func(fn *ssa.Function)
+	visit = func(fn *ssa.Function) {
+		if fn == nil || seen[fn] || !c.InScope(fn) {
 			return
 		}
-		seen[n.Func] = true
-		for _, e := range n.Out {
-			visit(e.Callee)
-		}
-		// literals created here run somewhere reachable (passed as callbacks)
-		for _, a := range n.Func.AnonFuncs {
-			visit(cg.Nodes[a])
+		seen[fn] = true
+		node := cg.Nodes[fn]
+		for _, b := range fn.Blocks {
+			for _, in := range b.Instrs {
+				var ops []*ssa.Value
+				for _, op := range in.Operands(ops) {
+					if *op == nil {
+						continue
+					}
+					switch x := (*op).(type) {
+					case *ssa.Function:
+						visit(x) // static callee or function used as a value
+					case *ssa.Global:
+						for _, f := range globalFns[x] {
+							visit(f)
+						}
+					}
+				}
+				switch x := in.(type) {
+				case *ssa.MakeClosure:
+					visit(x.Fn.(*ssa.Function))
+				case ssa.CallInstruction:
+					if x.Common().IsInvoke() && node != nil {
+						for _, e := range node.Out {
+							if e.Site == x {
+								visit(e.Callee.Func)
+							}
+						}
+					}
+				}
+			}
 		}
 	}
 	for _, r := range roots {
-		if r != nil {
-			visit(cg.Nodes[r])
-		}
+		visit(r)
 	}
 	var out []*ssa.Function
 	for f := range seen {
